@@ -14,6 +14,7 @@ import (
 	"encoding/pem"
 	"errors"
 	"fmt"
+	"math/big"
 	"sync"
 
 	"github.com/cloudflare/circl/group"
@@ -73,6 +74,36 @@ func CollidingRSAKeys() []*rsa.PrivateKey {
 		}
 	})
 	return collKeys
+}
+
+// SiblingRSAKey returns a key over the same modulus and primes as k with another public exponent,
+// chosen by search so that byte pos of its token key id (SHA-256 of the RSASSA-PSS
+// SubjectPublicKeyInfo computed by spki) equals that byte of k's id; pos < 0: any exponent.
+func SiblingRSAKey(k *rsa.PrivateKey, pos int, spki func(*rsa.PublicKey) []byte) *rsa.PrivateKey {
+	one := big.NewInt(1)
+	phi := new(big.Int).Mul(new(big.Int).Sub(k.Primes[0], one), new(big.Int).Sub(k.Primes[1], one))
+	want := sha256.Sum256(spki(&k.PublicKey))
+	for e := 65539; e < 1<<30; e += 2 {
+		eb := big.NewInt(int64(e))
+		if new(big.Int).GCD(nil, nil, eb, phi).Cmp(one) != 0 {
+			continue
+		}
+		pub := &rsa.PublicKey{N: k.N, E: e}
+		if pos >= 0 {
+			id := sha256.Sum256(spki(pub))
+			if id[pos] != want[pos] {
+				continue
+			}
+		}
+		d := new(big.Int).ModInverse(eb, phi)
+		nk := &rsa.PrivateKey{PublicKey: rsa.PublicKey{N: new(big.Int).Set(k.N), E: e}, D: d, Primes: []*big.Int{new(big.Int).Set(k.Primes[0]), new(big.Int).Set(k.Primes[1])}}
+		nk.Precompute()
+		if err := nk.Validate(); err != nil {
+			continue
+		}
+		return nk
+	}
+	panic("no sibling key found")
 }
 
 // FreshRSA returns a private copy of fixed key i (safe to hand to code under test
